@@ -41,8 +41,9 @@ class OrderImports(SimpleCodemod, UtilsMixin):
             # seemingly redundant, this check makes it possible to return the original tree
             for i, changed in enumerate(order_transformer.changes):
                 if changed:
+                    # `changes` is indexed like the blocks handed to the transformer
                     self.add_change(
-                        top_imports_visitor.top_imports_blocks[i][0],
+                        filtered_blocks[i][0],
                         self.change_description,
                     )
             return result_tree
